@@ -498,6 +498,7 @@ C15_deadlineSet(t, gg) ==
     (OnlyWager(p.allowed) /\ ~p.acted) => (t.st.deadline >= t.t + t.st.actiontime - 1 /\ t.st.deadline <= t.t + t.st.actiontime + 1)
 C15_deadlineCleared(t, gg) ==
   (FirstPub(t, gg) /\ H(t.st).ev = "RoundClosed") => t.st.deadline = 0
+C15_clearedBetweenHands(t) == (t.ev = "hook" /\ t.a.kind = "continue.reset") => t.st.deadline = 0
 C15_extend(t) ==
   (t.ev = "ret:PlayerExtendActionDeadline" /\ t.res = "ok" /\ Len(t.pre) = 1) =>
     (t.a.chips = t.pre[1].deadline + t.a.amt /\ t.st.deadline = t.a.chips)
@@ -591,6 +592,7 @@ CheckLine(k, gg) ==
      /\ Clause("C14_nonParticipantsZero", C14_nonParticipantsZero(t), kfmid, k)
      /\ Clause("C15_deadlineSet", C15_deadlineSet(t, gg), "", k)
      /\ Clause("C15_deadlineCleared", C15_deadlineCleared(t, gg), "", k)
+     /\ Clause("C15_clearedBetweenHands", C15_clearedBetweenHands(t), "", k)
      /\ Clause("C15_extend", C15_extend(t), "", k)
 
 Init == l = 1 /\ g = G0
